@@ -527,3 +527,12 @@ Proof.
   - intros f Hf Hz. unfold quo, opd_float. destruct l; try reflexivity; rewrite Hf, Hz; reflexivity.
   - intros Hi. unfold rem, opd_int. destruct l; try reflexivity; cbn; rewrite Hi; reflexivity.
 Qed.
+
+(* ------------------------------------------------------------------ casts *)
+Lemma cast_is_ref_l : forall lib c v, scalar v = true -> cast_eval lib c v = ref_cast lib c v.
+Proof.
+  intros lib c v Hs; destruct c, v; try discriminate; cbn; try reflexivity;
+    try (destruct (parse_float lib s); reflexivity); try (destruct b; reflexivity).
+Qed.
+Lemma cast_acceptable_l : forall lib c v, acceptable (cast_eval lib c v) = true.
+Proof. intros lib c v; destruct c, v; cbn; try reflexivity; try (destruct (parse_float lib s); reflexivity); try (destruct items; reflexivity). Qed.
